@@ -68,23 +68,30 @@ MC_HARNESS(wakeup_ok) {
   mc::join_all();
 }
 
-// two waiters, wake one: which one continues depends on the kernel's pick
+// two waiters, wake one: which one continues first depends on the kernel's pick
 MC_HARNESS(wakepick) {
-  int ftx = 0;
-  mc::Shared<int> woke[2];
+  union {
+    int ftx;
+    std::atomic<int> gen;
+  } u;
+  u.ftx = 0;
+  mc::Shared<int> order{0}, first{-1};
   std::atomic<int> parked{0};
   for (int i = 0; i < 2; i++)
     mc::spawn([&, i] {
       parked.fetch_add(1);
-      if (fut(&ftx, FUTEX_WAIT_PRIVATE, 0) == 0) woke[i].set(1);
+      while (u.gen.load() == 0) fut(&u.ftx, FUTEX_WAIT_PRIVATE, 0);
+      if (order.add(1) == 0) first.set(i);
     });
-  mc::block_until([&] { return mc_live_threads() == 3 && parked.a_.load() == 2; });
-  mc::point();
-  mc::point();
-  int n = (int)fut(&ftx, FUTEX_WAKE_PRIVATE, 1);
-  mc::point();
-  mc::observe("first", woke[0].get() * 2 + woke[1].get() + 10 * n);
-  fut(&ftx, FUTEX_WAKE_PRIVATE, 1);
+  // wait (model-level) until both are really blocked in the futex: 2 live children, both parked, and
+  // nothing else can run
+  mc::block_until([&] { return parked.a_.load() == 2; });
+  for (int k = 0; k < 6; k++) mc::point();
+  u.gen.store(1);
+  fut(&u.ftx, FUTEX_WAKE_PRIVATE, 1);
+  mc::block_until([&] { return order.get() >= 1; });
+  mc::observe("first", first.get());
+  fut(&u.ftx, FUTEX_WAKE_PRIVATE, 1);
   mc::join_all();
 }
 
